@@ -25,10 +25,10 @@ def plans(ctx):
         return [
             # straight-line scripts over the rich reply pools: every reply kind x account 8/64/65/90 chars, with and
             # without trailing words, NO/AGAIN/MORE texts with spaces and punctuation up to 200 chars
-            R.Plan("rep1", "S_q1", script="ScriptReply1", rich_sel="RichReply", emit_mod=6, max_pw=2, opts=CLS),
-            R.Plan("rep2", "S_t1a", script="ScriptReply2", rich_sel="RichReply", emit_mod=60, max_pw=2, opts=CLS),
+            R.Plan("rep1", "S_q1", script="ScriptReply1", rich_sel="RichReply", emit_mod=3, max_pw=2, opts=CLS),
+            R.Plan("rep2", "S_t1a", script="ScriptReply2", rich_sel="RichReply", emit_mod=25, max_pw=2, opts=CLS),
             # free environment: every order of replies from a login and a dronecheck service
-            R.Plan("q1", "S_q1", emit_mod=60, max_inst=1, max_pw=2, opts=CLSX)]
+            R.Plan("q1", "S_q1", emit_mod=35, max_inst=1, max_pw=2, opts=CLSX)]
     return [R.Plan("rep1", "S_q1", script="ScriptReply1", rich_sel="RichReply", emit_mod=1, max_pw=2, opts=CLS),
             R.Plan("rep2", "S_t1a", script="ScriptReply2", rich_sel="RichReply", emit_mod=8, max_pw=2, opts=CLS),
             R.Plan("rep3", "S_t1b", script="ScriptReply1", rich_sel="RichReply", emit_mod=1, max_pw=2, opts=CLS),
